@@ -123,7 +123,7 @@ func joinTokens(toks []ptok, rng *rand.Rand, base bool, edits int) string {
 		}
 		afterMeta := i > 0 && toks[i-1].T == "METADATA"
 		if k, ok := editAt[i]; ok && !afterMeta && i > 0 {
-			choices := []string{" ", "\t", "\n", "  \n ", ""}
+			choices := []string{" ", "\t", "\n", "  \n ", "", "\r\n", "\u00a0", "\u3000", "\f"}
 			if !inMeta && toks[i-1].T != "UNDERSCORE" {
 				choices = append(choices, ";c\n", " ; [x] {y=z}\n", ";a\n;b\n", ";1\n;2\n;3\n;4\n", " ;x\n\t;y\n ")
 			}
